@@ -1,6 +1,7 @@
 package main
 
 import (
+	"errors"
 	"fmt"
 	"log"
 	"reflect"
@@ -119,11 +120,13 @@ func plansFor(name string, hasString, hasArgs, hasFields, returnsCE bool) []argP
 	switch {
 	case hasString && !hasArgs: // (msg, ...Field) or (msg) -> *CheckedEntry
 		out = append(out, argPlan{variant: "msg", str: token, msg: token})
+		out = append(out, argPlan{variant: "empty-msg", str: "", msg: ""})
 		if hasFields || returnsCE {
 			out = append(out, argPlan{variant: "msg+field", str: token, fields: []zapcore.Field{zap.String("k", "v")}, msg: token, want: map[string]any{"k": "v"}})
 		}
 	case hasString && hasArgs: // (template|msg, ...interface{})
 		out = append(out, argPlan{variant: "string-only", str: token, msg: token})
+		out = append(out, argPlan{variant: "empty-string", str: "", msg: ""})
 		switch st {
 		case "f":
 			out = append(out, argPlan{variant: "template+args", str: token + " %s|%d", args: []interface{}{"x", 7}, msg: fmt.Sprintf(token+" %s|%d", "x", 7)})
@@ -135,8 +138,10 @@ func plansFor(name string, hasString, hasArgs, hasFields, returnsCE bool) []argP
 		switch st {
 		case "ln":
 			out = append(out, argPlan{variant: "three-args", args: []interface{}{token, "x", 7}, msg: sprintlnTrim(token, "x", 7)})
+			out = append(out, argPlan{variant: "no-args", msg: sprintlnTrim()})
 		case "plain":
 			out = append(out, argPlan{variant: "three-args", args: []interface{}{token, "x", 7}, msg: fmt.Sprint(token, "x", 7)})
+			out = append(out, argPlan{variant: "no-args", msg: fmt.Sprint()})
 		}
 	}
 	return out
@@ -260,19 +265,29 @@ func discover() discovery {
 	// the std-log bridge at the three levels
 	for _, lvl := range termLevels {
 		lvl := lvl
+		// the bridge logs the text with surrounding white space trimmed; a
+		// blank text is the empty message, and the call still terminates
 		type stdCall struct {
-			name string
-			f    func(sl *log.Logger)
+			name    string
+			variant string
+			msg     string
+			f       func(sl *log.Logger)
 		}
 		for _, sc := range []stdCall{
-			{"Print", func(sl *log.Logger) { sl.Print(token) }},
-			{"Printf", func(sl *log.Logger) { sl.Printf("%s", token) }},
-			{"Println", func(sl *log.Logger) { sl.Println(token) }},
-			{"Output", func(sl *log.Logger) { _ = sl.Output(1, token) }},
+			{"Print", "one-arg", token, func(sl *log.Logger) { sl.Print(token) }},
+			{"Printf", "one-arg", token, func(sl *log.Logger) { sl.Printf("%s", token) }},
+			{"Println", "one-arg", token, func(sl *log.Logger) { sl.Println(token) }},
+			{"Output", "one-arg", token, func(sl *log.Logger) { _ = sl.Output(1, token) }},
+			{"Print", "empty-string", "", func(sl *log.Logger) { sl.Print("") }},
+			{"Print", "empty-error-text", "", func(sl *log.Logger) { sl.Print(errors.New("")) }},
+			{"Printf", "blank-text", "", func(sl *log.Logger) { sl.Printf("  \n") }},
+			{"Println", "no-args", "", func(sl *log.Logger) { sl.Println() }},
+			{"Output", "empty-string", "", func(sl *log.Logger) { _ = sl.Output(2, "") }},
+			{"Print", "padded", token, func(sl *log.Logger) { sl.Print("  " + token + " \n\n") }},
 		} {
 			sc := sc
 			d.forms = append(d.forms, form{
-				fe: "NewStdLogAt." + sc.name, family: "stdlog", via: "direct", variant: "one-arg", level: lvl, msg: token,
+				fe: "NewStdLogAt." + sc.name, family: "stdlog", via: "direct", variant: sc.variant, level: lvl, msg: sc.msg,
 				prepare: func(l *zap.Logger) (func(), func()) {
 					sl, err := zap.NewStdLogAt(l, lvl)
 					if err != nil {
@@ -283,16 +298,20 @@ func discover() discovery {
 			})
 		}
 		type gCall struct {
-			name string
-			f    func()
+			name    string
+			variant string
+			msg     string
+			f       func()
 		}
 		for _, gc := range []gCall{
-			{"Print", func() { log.Print(token) }},
-			{"Println", func() { log.Println(token) }},
+			{"Print", "one-arg", token, func() { log.Print(token) }},
+			{"Println", "one-arg", token, func() { log.Println(token) }},
+			{"Print", "empty-string", "", func() { log.Print("") }},
+			{"Println", "no-args", "", func() { log.Println() }},
 		} {
 			gc := gc
 			d.forms = append(d.forms, form{
-				fe: "RedirectStdLogAt." + gc.name, family: "stdlog", via: "direct", variant: "one-arg", level: lvl, msg: token,
+				fe: "RedirectStdLogAt." + gc.name, family: "stdlog", via: "direct", variant: gc.variant, level: lvl, msg: gc.msg,
 				prepare: func(l *zap.Logger) (func(), func()) {
 					restore, err := zap.RedirectStdLogAt(l, lvl)
 					if err != nil {
